@@ -473,10 +473,10 @@ impl Model for M {
 
 const MENU_DEFS: &[&str] = &[
     "DECLARE a BIT",
-    "DECLARE b REAL",
+    "DECLARE b REAL SHARING a",
     "DECLARE a REAL[2]",
-    "DEFFRAME 0 \"f\":\n    X: 1",
-    "DEFFRAME 1 \"f\":\n    X: 1",
+    "DEFFRAME 0 \"f\":\n    X: 1\n    Y: 1",
+    "DEFFRAME 1 \"f\":\n    X: 1\n    Z: \"s\"",
     "DEFFRAME 0 \"f\":\n    X: 2",
     "DEFFRAME 0 1 \"g\":\n    X: 1",
     "DEFWAVEFORM w:\n    1",
@@ -737,7 +737,7 @@ pub static C08: PropDef = PropDef {
     id: "C08",
     level: "model_checking",
     engine: "hist",
-    rule: "transition system over real Programs: add_instruction over a 28-instruction menu with two keys and a redefinition for each of the 8 definition kinds (declarations, frames, waveforms, calibrations, measure calibrations, gates, circuits, extern pragmas) plus body instructions, + with 3 fixed programs and with itself; depth <= 4 (thorough 6) over the full menu and depth <= 5 (7) over each per-kind menu; stateright DFS with state matching. Oracle in every state: per-kind listing order = first insertion, value = last; same history rebuilt serializes byte-identically; sampled states serialized in two separate processes. non-trivial = state at depth >= 2",
+    rule: "transition system over real Programs: add_instruction over a 28-instruction menu (a SHARING declaration before plain ones; frame redefinitions whose attribute key set shrinks) with two keys and a redefinition for each of the 8 definition kinds (declarations, frames, waveforms, calibrations, measure calibrations, gates, circuits, extern pragmas) plus body instructions, + with 3 fixed programs and with itself; depth <= 4 (thorough 6) over the full menu and depth <= 5 (7) over each per-kind menu; stateright DFS with state matching. Oracle in every state: per-kind listing order = first insertion, value = last; same history rebuilt serializes byte-identically; sampled states serialized in two separate processes. non-trivial = state at depth >= 2",
     assumptions: ASSUME,
     run: |ctx| {
         run_c08_c09(ctx, "C08", Which::C08);
